@@ -13,6 +13,8 @@
   `update_from` itself; every other raisable kind at every modelled call site is covered by an except clause / mapping.
 -/
 import Basyx.Lemmas.Repo
+import Basyx.Model.Select
+import Basyx.Gen.SelectHttp
 namespace Basyx.Repo
 open Basyx
 
@@ -225,5 +227,18 @@ example : (getObj "get_submodel" "s" .sm {method := "GET", path := []} witnessSt
     = .ok ⟨200, none, .item (.obj (.sm "s" (.mk "" .sm none 0 [] [.mk "a" .prop (some "a") 0 [] []])))⟩ := by rfl
 
 example : (getObj "get_submodel" "zz" .sm {method := "GET", path := []} witnessStore).2 = .http 404 := by rfl
+
+/-! ### Request bodies are read strictly
+
+"Malformed ... client input always yields a 4xx": the handler model abstracts a body to its decode outcome; that a malformed body
+IS an error for the reader rests on the reader being a strict one.  Which reader `HTTPApiDecoder` uses is regenerated from
+`http.py` (`Gen/SelectHttp.lean`: the decoder class handed to `json.loads`, the `failsafe=` / `stripped=` arguments handed to
+`read_aas_xml_element`), which class those arguments select from the XML reader (`Gen/Select.lean`). -/
+
+/-- (re-checked against the source on every run) for JSON and XML, with and without `level=core`: the class that reads the body
+    has `failsafe = False` - by attribute lookup along its method resolution order - and `stripped` exactly as requested -/
+theorem c11_body_readers_strict : Select.bodyReadersOk Gen.SelectHttp.bodyReaders = true := by decide
+
+example : Select.bodyReaderClass ("xml-dec", true, none, some false, some true) = some "StrictStrippedAASFromXmlDecoder" := by decide
 
 end Basyx.Repo
